@@ -36,8 +36,9 @@ def fn_queries(tier, prop):
                 # STEER=2: additionally "failed with the cursor left on a closer/comma" (vacuous on a correct tree)
                 for entry, stubs in (('h_array_fn', {nm['parseValue']: 'fn_parseValue'}), ('h_object_fn', {nm['parseValue']: 'fn_parseValue', nm['UnEscape']: 'fn_unescape'}),
                                      ('h_top_fn', {nm['parseValue']: 'fn_parseValue'})):
-                    for st in (1, 2, 3):
+                    for st in (1, 2, 3, 4):
                         if st == 2 and entry == 'h_top_fn': continue
+                        if st == 4 and not (entry == 'h_top_fn' and L != 5): continue     # STEER=4: the value at top level is the real empty array  []
                         if st == 3 and not (entry == 'h_object_fn' and L >= 5): continue      # STEER=3: the valid text  "":D}  (empty member name)
                         if tier == 'quick' and L == 5 and not (entry == 'h_object_fn' and st in (1, 3)): continue   # L=5: room for  "":1}
                         d2 = dict(d); d2['STEER'] = st
